@@ -484,6 +484,19 @@ class Check(common.Check):
         c['udp'] = True
         return c
 
+    def g_hist_mutate(self, rng):
+        """a plain AND a matching responder on one address (one responder per dispatcher), handlers that append to /
+        pop from / assign into the message list they receive: every responder receives the message as it arrived"""
+        a = rng.choice(self.PATHS)
+        a = a if a.startswith('/') else '/' + a
+        ops = [['new', 0, 'E', a, None, None, None, 0], ['new', 1, 'P', a, None, None, None, 1]]
+        rng.shuffle(ops)
+        for _ in range(rng.randrange(1, 4)):
+            args = self.g_args(rng) or [1]
+            d = enc_msg(a, args) if rng.random() < 0.6 else enc_bundle(1, [enc_msg(a, args), enc_msg(a, self.g_args(rng))])
+            ops.append(['recv', float(100.75).hex(), 0, 57120, d.hex(), [IP, 5000], 'strict'])
+        return {'k': 'hist', 'ops': ops, 'mutate': rng.choice([[0], [1], [0, 1]])}
+
     def g_hist_reent(self, rng):
         """a handler registers / enables the responder for a LATER message of the same bundle (written as the
         sequence recv bundle[m1]; ops; recv bundle[m2, ...] and marked `fuse`: the implementation side sends ONE
@@ -601,8 +614,10 @@ class Check(common.Check):
             return self.g_hist(rng)
         if r < 0.84:
             return self.g_hist_udp(rng)
-        if r < 0.85:
+        if r < 0.845:
             return self.g_hist_reent(rng)
+        if r < 0.85:
+            return self.g_hist_mutate(rng)
         if r < 0.91:
             return self.g_sysact(rng)
         if r < 0.96:
